@@ -8,7 +8,7 @@ TECH = ('explicit TLA+ specification (spec/Contract.tla = contract L0, spec/Ring
         'behaviour of L1 (one call from every layout, and TLC-simulated multi-call histories from new()) is replayed into the real crate, and the recorded trace is validated by TLC against L0 (spec/Trace.tla)')
 
 NOTE = ('trusted base: TLC + CommunityModules JSON, rustc/cargo, the harness crate /verif/harness (records calls and user callbacks, '
-        'judges nothing). Bounded: capacities 0..4 (quick) / 0..5 (thorough), one injected fault per scenario; the hand transcription '
+        'judges nothing). Bounded: capacities 0..4 (quick) / 0..5 (thorough) for all operation families, 5..8 for the basic families and drain-and-drop, zero-sized elements at eight capacities up to usize::MAX, one injected fault per scenario; the hand transcription '
         'spec/Ring.tla is only a scenario generator and design-level check - the verdict on the code comes from validating traces of '
         'the real code against spec/Contract.tla')
 
